@@ -109,6 +109,12 @@ func (c *Ctx) MineIdx(scope string, idx int64) bool {
 	return true
 }
 
+// ReplayParent reports (in replay mode) whether (scope, idx) is the depth-1 parent of the
+// recorded depth-2 case "<scope>/d2" #idx*16+k.
+func (c *Ctx) ReplayParent(scope string, idx int64) bool {
+	return c.Replay && c.ReplayScope == scope+"/d2" && c.ReplayIndex/16 == idx
+}
+
 // Expired reports whether the internal deadline passed; the run then ends with exhaustive=false.
 func (c *Ctx) Expired() bool {
 	if c.Replay {
